@@ -80,7 +80,8 @@ CHECKS = {
         "refused. " 
         "evo_res over six result files: three plain ones, a name with glob metacharacters next to the sibling it would match, a NaN statistic, a different statistic set. " 
         "merge_results also with arrays in other representations (int64 / float32 first or later, one array object under two keys, read-only). " 
-        "Statistics may be 0 or negative; arrays may be 2-D (L x 4, 4 x 4).",
+        "Statistics may be 0 or negative; arrays may be 2-D (L x 4, 4 x 4). " 
+        "Table files named .csv / .json / .tex / .txt / without extension.",
         "Trusted: the predicate in mc/checks/c13.py, csv parsing. Not covered: "
         "lists longer than the bound, result files other than the three APE "
         "fixtures.",
@@ -101,7 +102,8 @@ CHECKS = {
         "graph. " 
         "Heap objects also hold their matrices as one (n,4,4) array (views sharing one buffer; transitions are replayed, not deep-copied); writers are also given a result with NaN / inf statistics and info values. " 
         "A derive operation that builds a second object from the very pose list of the first; copy/deepcopy/pickle are table entries observed without deep copies; trajectories carry metadata dicts. " 
-        "Table entries for the ROS1 bag writer (quaternions unit only to 1e-7) and save_df_as_table in both orientations.",
+        "Table entries for the ROS1 bag writer (quaternions unit only to 1e-7) and save_df_as_table in both orientations. " 
+        "Trajectories whose position / quaternion arrays are column-major.",
         "Trusted: snapshots through deepcopy; np.shares_memory for the "
         "aliasing graph. Not covered: heaps > 3 objects, depth beyond bound.",
         "DESIGN.md 4/C16"),
@@ -158,7 +160,8 @@ CHECKS = {
         "genuine elements, rejection of 12 near-miss classes and 4 bottom "
         "rows; all pairs: metric value, symmetry, zero only for equal, "
         "bi-invariance; all triples: triangle inequality. " 
-        "Near misses include shears of either sign (5e-4..0.1) in all six off-diagonal positions on either side.",
+        "Near misses include shears of either sign (5e-4..0.1) in all six off-diagonal positions on either side. " 
+        "hat / vee against the definition; scales within 2e-6 and 1e-9 of 1.",
         "Trusted: numpy-only rotation oracle (mc/refmodel/geom.py). Not "
         "covered: rotations outside the alphabet; near-miss matrices between "
         "1e-9 and 1e-5 from the group (acceptance radius is not specified).",
@@ -177,7 +180,8 @@ CHECKS = {
         "the documented order; predicted refusals must be refusals; identity "
         "run must reproduce the input bit for bit. " 
         "Also with file names that contain the reference's file name as suffix / prefix, --propagate_transform with --transform_left, and a motion-filter threshold spanning several poses of the zig-zag fixture. " 
-        "Stale export files of an earlier run exist before every run; EuRoC inputs also without the title line.",
+        "Stale export files of an earlier run exist before every run; EuRoC inputs also without the title line. " 
+        "The two estimates in both orders with a down-sampling count between their sizes; epoch-sized timestamps x every use of the reference.",
         "Trusted: reference pipeline (mc/refmodel/pipeline.py), Horn oracle, "
         "evo's own project() for the orientation of non-planar projections. "
         "Not covered: bag input/output, other fixtures.",
@@ -199,7 +203,8 @@ CHECKS = {
         "priority, per-run settings override, locked container. " 
         "Reset of every single key, adjacent pair and prefix-related pair from a file in which every key holds a user value; a set whose value tokens are all numeric must not raise. " 
         "generate cases include the same option given twice with different values. " 
-        "A config holding null / false / 0 for an option that the command line sets; the effect of console_logging_format from -c on the run's output.",
+        "A config holding null / false / 0 for an option that the command line sets; the effect of console_logging_format from -c on the run's output. " 
+        "evo_config generate through its own command line, with argument lists that contain option names it might take for its own.",
         "Trusted: introspection of argparse actions; output comparison of "
         "result zips / exported files. Not covered: short options, triples of "
         "options.",
@@ -217,7 +222,8 @@ CHECKS = {
         "minimality of j, start bound, maximality, closest-within-tolerance, "
         "each eligible i once, exact angle band, empty <=> FilterException. " 
         "All-pairs path mode also with tolerances of 1.0 and above. " 
-        "Path cases carry orientations (exact half turns, a quarter turn) that must not matter.",
+        "Path cases carry orientations (exact half turns, a quarter turn) that must not matter. " 
+        "An RPE object re-parameterised between two evaluations (all ordered pairs of 7 parameter sets) selects like a fresh one.",
         "Trusted: predicates in mc/checks/c10.py; three-valued comparisons "
         "within 1e-9 for accumulated angles. Not covered: longer sequences, "
         "off-grid geometry.",
@@ -234,7 +240,8 @@ CHECKS = {
         "steps); merge: all assignments of 4 (5) time slots to 1..3 "
         "trajectories incl. equal stamps. Every pose carries a unique "
         "position/orientation/stamp so 'travel together' is decided per pose. " 
-        "Every fourth tagged pose holds an exact half turn (quaternion w = 0), every fourth an exact quarter turn.",
+        "Every fourth tagged pose holds an exact half turn (quaternion w = 0), every fourth an exact quarter turn. " 
+        "Clockwise rotation steps with a 150 deg threshold; evo_traj --downsample / --motion_filter over two files of different lengths in both orders.",
         "Trusted: predicates in mc/checks/c11.py. Not covered: > 14 poses, "
         "off-grid geometry.",
         "DESIGN.md 4/C11"),
@@ -272,7 +279,8 @@ CHECKS = {
         "exact mapping. " 
         "Also after project() calls rejected for their argument, with matrices held as one (n,4,4) array, and through ape()/rpe() with project_to_plane on equal-but-distinct trajectories. " 
         "evo_traj --project_to_plane together with association / alignment / merge is judged through C15's pipeline. " 
-        "ape()/rpe() with project_to_plane on poses that already lie in the plane, also under non-default euler_angle_sequence settings; two objects given one metadata dict; metadata replaced / cleared after a projection.",
+        "ape()/rpe() with project_to_plane on poses that already lie in the plane, also under non-default euler_angle_sequence settings; two objects given one metadata dict; metadata replaced / cleared after a projection. " 
+        "evo_traj projection also together with transformations that have an out-of-plane part.",
         "Trusted: numpy rotation oracle. Not covered: rotations outside the "
         "alphabets.",
         "DESIGN.md 4/C14"),
@@ -293,7 +301,8 @@ CHECKS = {
         "the quick tier - error_array and timestamps from the saved zip vs "
         "the reference pipeline incl. predicted refusals. " 
         "Plus geometry variants of the estimate file (mirrored copy, both trajectories displaced by 5e4 m, the reference file given twice) x relation x alignment x n_to_align; an exception escaping from evo is a violation. " 
-        "A burst variant (two estimate poses contending for one reference pose): the contested association is adopted from evo's primitive after it passed C05's predicate.",
+        "A burst variant (two estimate poses contending for one reference pose): the contested association is adopted from evo's primitive after it passed C05's predicate. " 
+        "The estimate file also without a line end after its last row and with CRLF line ends.",
         "Trusted: reference pipeline and definitions (mc/refmodel, "
         "mc/checks/ape_rpe_common.py), Horn oracle, evo's project() for the "
         "orientation of non-planar projections, one 8-pose fixture.",
@@ -330,7 +339,8 @@ CHECKS = {
         "conversions (explicit types), and a ROS1 bag (positions/quaternions "
         "exact, frame id, stamps within 1 ns). " 
         "Result info strings run through an alphabet (undecodable file-name bytes as lone surrogates, control characters, astral plane, empty, long). " 
-        "Every alphabet value also as the first field of the first row (TUM, KITTI); bag export with three trajectories in one bag under their own topics.",
+        "Every alphabet value also as the first field of the first row (TUM, KITTI); bag export with three trajectories in one bag under their own topics. " 
+        "Matrices in column-major memory layout; the exported trajectory carries another frame id in its metadata than the one it is exported with.",
         "Trusted: numpy bit patterns. Not covered: ROS2 bag export (the "
         "installed rosbags writer needs an argument evo does not pass), "
         "denormals / values beyond 1e+-300.",
@@ -349,7 +359,8 @@ CHECKS = {
         "files without data rows; evo-written files parsed independently; "
         "transform files in 3 forms incl. 8 invalid classes. " 
         "Text transforms also in other whitespace layouts (padded columns, tabs, indentation and trailing blanks, CRLF without final newline, comment line). " 
-        "Written files cover the hard rotation alphabet (exact half / quarter turns, angles within 1e-12 of 0 and pi).",
+        "Written files cover the hard rotation alphabet (exact half / quarter turns, angles within 1e-12 of 0 and pi). " 
+        "Files whose last row has no line end; rows stamped earlier than their predecessors.",
         "Trusted: mc/refmodel/files.py, Python float(). EuRoC rows are "
         "malformed if < 8 columns or inconsistent with the other rows.",
         "DESIGN.md 4/C07"),
@@ -369,7 +380,8 @@ CHECKS = {
         "options. " 
         "Bystander files with neighbouring names exist in every initial state and may never change; extension-less plot target also with savefig.format = pdf. " 
         "Writers are also called with the flag by position / left at its default; one path given to two output options of evo_ape/evo_rpe is judged by an event monitor (every write onto a then-existing path needs a question answered y since the last write to it). " 
-        "Answers include whitespace-padded y and an unanswered question (EOF); a plot target that ends with a dot.",
+        "Answers include whitespace-padded y and an unanswered question (EOF); a plot target that ends with a dot. " 
+        "Initial state with an existing file much longer than any output (no remains of it after a replacement); two inputs with the same file stem.",
         "Trusted: input() substitution, directory snapshots. Excluded: "
         "--logfile (append), bag exports (time-stamped names).",
         "DESIGN.md 4/C17"),
